@@ -721,10 +721,11 @@ namespace
       bool tainted = false;                    // the counter was seen wrong during this run: its result is a consequence
       const char* grammar = "";
       const std::string* input = nullptr;
+      const char* mode = "";   // "" = apply_mode::action; otherwise a key suffix naming the run mode
 
       std::string describe() const
       {
-         return std::string( "grammar " ) + grammar + " limit_depth<" + std::to_string( N ) + "> input '" + verif::show( *input ) + "'";
+         return std::string( "grammar " ) + grammar + " limit_depth<" + std::to_string( N ) + ">" + ( mode[ 0 ] ? " (actions attached, parse run with apply_mode::nothing)" : "" ) + " input '" + verif::show( *input ) + "'";
       }
       std::string replay() const
       {
@@ -738,7 +739,7 @@ namespace
          if( m.tainted ) return;  // once per run
          m.tainted = true;
       }
-      V.violation( "C18", "C18|limit_depth|" + cls, m.describe() + ": " + text, m.replay() );
+      V.violation( "C18", "C18|limit_depth|" + cls + m.mode, m.describe() + ": " + text, m.replay() );
    }
 
    namespace dg
@@ -821,14 +822,14 @@ namespace
 
    using din = pegtl::input_with_depth< pegtl::memory_input<> >;
 
-   template< typename Grammar >
+   template< typename Grammar, pegtl::apply_mode A >
    res run_depth( din& in, dmon& m )
    {
       m.nest = 0;
       m.maxnest = 0;
       m.tainted = false;
       try {
-         const bool ok = pegtl::parse< Grammar, dg::dact, dctl >( in, m );
+         const bool ok = pegtl::parse< Grammar, dg::dact, dctl, A >( in, m );
          return ok ? res{ 1, in.byte(), "" } : res{ 0, 0, "" };
       }
       catch( const pegtl::parse_error& e ) {
@@ -843,22 +844,25 @@ namespace
    }
 
    using dfn = res ( * )( din&, dmon& );
-   template< template< typename > class G, std::size_t... N >
+   template< template< typename > class G, pegtl::apply_mode A, std::size_t... N >
    constexpr std::array< dfn, sizeof...( N ) + 1 > make_dtable( std::index_sequence< N... > /*unused*/ )
    {
-      return { { &run_depth< G< dg::lim< N > > >..., &run_depth< G< dg::unl > > } };
+      return { { &run_depth< G< dg::lim< N > >, A >..., &run_depth< G< dg::unl >, A > } };
    }
    using dtable_t = std::array< dfn, NN + 1 >;
 
    const char* const msg_depth = "maximum parser rule nesting depth exceeded";
 
-   void depth_case( const char* gname_, const int gi, const dtable_t& table, const std::string& input )
+   // mode: "" for the ordinary run; "|apply_mode::nothing" when the guard's action class is attached but the run is started with
+   // actions disabled (what at<>, not_at<>, disable<> do to a sub-tree): the limit is a property of the rule, not of its actions
+   void depth_case( const char* gname_, const int gi, const dtable_t& table, const std::string& input, const char* mode = "" )
    {
-      if( !V.begin_case( "C18", "limit_depth", input.data(), input.size() ) ) return;
+      if( !V.begin_case( "C18", mode[ 0 ] ? "limit_depth, apply_mode::nothing" : "limit_depth", input.data(), input.size() ) ) return;
       // unguarded baseline: result and the nesting the input needs
       dmon bm;
       bm.grammar = gname_;
       bm.input = &input;
+      bm.mode = mode;
       verif::guarded_buffer bgb( input, 0 );
       din bin( bgb.begin(), bgb.end(), "c18" );
       const res base = table[ NN ]( bin, bm );
@@ -870,6 +874,7 @@ namespace
          m.N = N;
          m.grammar = gname_;
          m.input = &input;
+         m.mode = mode;
          char extra[ 64 ];
          std::snprintf( extra, sizeof extra, "%s N=%zu", gname_, N );
          V.set_extra( extra );
@@ -899,6 +904,7 @@ namespace
             if( residue || m.tainted ) break;  // a second run would only show consequences
          }
          const char* rel = needed < N ? "below" : needed == N ? "at-limit" : needed == N + 1 ? "one-over" : "beyond";
+         if( mode[ 0 ] ) V.count( std::string( "depth-with-actions-disabled|" ) + rel, 2 );
          V.count( "depth|N" + std::to_string( N ) + "|" + rel + "|" + st_name( base.st ), 2 );
          V.count( std::string( "depth-grammar|" ) + gname_ + "|" + st_name( base.st ) + ( needed > N ? "|over-limit" : "|within-limit" ), 2 );
          if( needed + 1 >= N ) {
@@ -926,10 +932,14 @@ namespace
 
    void part_depth()
    {
-      static const dtable_t t1 = make_dtable< dg::g1 >( std::make_index_sequence< NN >() );
-      static const dtable_t t2 = make_dtable< dg::g2 >( std::make_index_sequence< NN >() );
-      static const dtable_t t3 = make_dtable< dg::g3 >( std::make_index_sequence< NN >() );
-      static const dtable_t t4 = make_dtable< dg::g4 >( std::make_index_sequence< NN >() );
+      static const dtable_t t1 = make_dtable< dg::g1, pegtl::apply_mode::action >( std::make_index_sequence< NN >() );
+      static const dtable_t n1 = make_dtable< dg::g1, pegtl::apply_mode::nothing >( std::make_index_sequence< NN >() );
+      static const dtable_t t2 = make_dtable< dg::g2, pegtl::apply_mode::action >( std::make_index_sequence< NN >() );
+      static const dtable_t n2 = make_dtable< dg::g2, pegtl::apply_mode::nothing >( std::make_index_sequence< NN >() );
+      static const dtable_t t3 = make_dtable< dg::g3, pegtl::apply_mode::action >( std::make_index_sequence< NN >() );
+      static const dtable_t n3 = make_dtable< dg::g3, pegtl::apply_mode::nothing >( std::make_index_sequence< NN >() );
+      static const dtable_t t4 = make_dtable< dg::g4, pegtl::apply_mode::action >( std::make_index_sequence< NN >() );
+      static const dtable_t n4 = make_dtable< dg::g4, pegtl::apply_mode::nothing >( std::make_index_sequence< NN >() );
       const std::size_t D = NN + 3;  // nesting 0..N+3 for the largest N (6): up to 9
       std::set< std::string > parens;
       all_strings( "()", V.thorough() ? 14 : 10, parens );
@@ -978,6 +988,11 @@ namespace
          depth_case( "nest", 1, t1, s );
          depth_case( "star-of-nest", 2, t2, s );
          depth_case( "nest-with-swallowed-depth-error", 4, t4, s );
+         if( s.size() <= 10 ) {
+            depth_case( "nest", 1, n1, s, "|apply_mode::nothing" );
+            depth_case( "star-of-nest", 2, n2, s, "|apply_mode::nothing" );
+            depth_case( "nest-with-swallowed-depth-error", 4, n4, s, "|apply_mode::nothing" );
+         }
       }
       std::set< std::string > brackets;
       all_strings( "[]x", V.thorough() ? 9 : 7, brackets );
@@ -990,7 +1005,10 @@ namespace
          brackets.insert( rep( '[', d ) + "y" );                                           // garbage at depth d
          brackets.insert( rep( '[', d ) + "x" + rep( ']', d ) + "]" );
       }
-      for( const auto& s : brackets ) depth_case( "sor-must-recursion", 3, t3, s );
+      for( const auto& s : brackets ) {
+         depth_case( "sor-must-recursion", 3, t3, s );
+         depth_case( "sor-must-recursion", 3, n3, s, "|apply_mode::nothing" );
+      }
    }
 #endif
 }  // namespace
